@@ -7,10 +7,11 @@ BOUNDS = {
     "quick": "one transfer of k<=2 (source, destination, volume) triples from an arbitrary valid state; wells per slot from 2 candidates per side (k=2) or 4 "
              "(k=1), i.e. every order and repeats; volumes symbolic of ANY sign; both devices; plate 2x2 / trough 3x2 either side; partition_by x3; "
              "wash schemes 1,2,3,4,'flush','reuse'; DiTi mode on/off; pass-through liquid_class / rack_id as abstract strings (length 0..40, may "
-             "contain ';') and tip in {default, 3, (1,2), Tip.T8, Tip.Any}; <=2 split steps; mismatched argument lengths",
+             "contain ';') and tip in {default, 3, (1,2), Tip.T8, Tip.Any}; <=2 split steps; mismatched argument lengths; 2-D (2x2) well arrays with a 2x2 nested "
+             "volume list (four symbolic volumes, no splitting)",
     "thorough": "k<=3 triples (2 candidates per side), <=3 split steps, 4 candidates for k=2, plates 3x2 and 8x2",
 }
-OUTSIDE = "k beyond the bound, more split steps, other geometries; 2-D argument arrays (pairing of array arguments is decided in C04)"
+OUTSIDE = "k beyond the bound, more split steps, other geometries; 2-D argument arrays larger than 2x2"
 ASSUMPTIONS = ["group membership of a record is decoded from its position field by the numbering formula (oracles/gwl.py)"]
 from fractions import Fraction
 
@@ -32,13 +33,15 @@ def shards(tier):
             out.append(dict(dev=dev, op="transfer", sgeo=sg, dgeo=dg, k=1, steps=2 if tier == "quick" else 3, partition_by="auto", neg=True,
                             washes=[1, 2, 3, 4, "flush", "reuse", 5, "wash"], ncand=2 if tier == "quick" else 4))
             out.append(dict(dev=dev, op="transfer", sgeo=sg, dgeo=dg, k=1, steps=2, partition_by="auto", neg=True, diti=True, washes=[1, 3, "flush", "reuse"]))
+            if (sg, dg) != ("t3x2", "p2x2"):
+                out.append(dict(dev=dev, op="transfer", sgeo=sg, dgeo=dg, k=4, steps=1, partition_by="auto", shape2d=True, washes=[1], wl_max=common.BIG * 2))
             for bad in ("vols+1", "dst+1", "vols-1", "src-1"):
                 out.append(dict(dev=dev, op="transfer", sgeo=sg, dgeo=dg, k=3 if bad.endswith("-1") else 2, steps=2, partition_by="auto", bad=bad, ncand=2, washes=[1]))
     return out
 
 
 def weight(p):
-    return p["k"] ** 3 * (3 if p.get("kwargs") else 1)
+    return p["k"] ** 3 * (3 if p.get("kwargs") else 1) * (4 if p.get("shape2d") else 1)
 
 
 def engine_opts(p, tier):
